@@ -53,8 +53,9 @@ end
 instance : BEq MVal := ⟨MVal.beq⟩
 
 mutual
-/-- `v` is a value of the advertised type `t`. `any` and `unknown` admit every value;
-function and object types are opaque (kind only). -/
+/-- `v` is a value of the advertised type `t`. `any` and `unknown` accept every value (they make no
+static claim); function and object types are opaque (kind only); `other` (pointer, iterator: kinds
+no member is advertised to return) conforms to nothing else. -/
 def conforms : MVal → GTy → Bool
   | .null, t => t == .null || t == .any || t == .unknown
   | .int _, t => t == .int || t == .any || t == .unknown
@@ -79,7 +80,7 @@ def conforms : MVal → GTy → Bool
   | .anyobj .., t => t == .anyobj || t == .any || t == .unknown
   | .obj .., t => t == .obj || t == .any || t == .unknown
   | .fn, t => t == .fn || t == .any || t == .unknown
-  | .other _, _ => false
+  | .other _, t => t == .any || t == .unknown
 def conformsAll : List MVal → GTy → Bool
   | [], _ => true
   | x :: xs, e => conforms x e && conformsAll xs e
